@@ -36,6 +36,7 @@ type Obligation struct {
 }
 
 type Engine struct {
+	curContract *Contract // contract of the function being verified
 	nilBytes *Region // backing of the empty byte string that stands for nil slices in DER predicates
 	prog     *ssa.Program
 	pkgs     map[string]*ssa.Package
@@ -1193,6 +1194,19 @@ func bitUFFacts(ts []*Term) []*Term {
 	seen := map[string]bool{}
 	for _, t := range ts {
 		t.walk(func(u *Term) {
+			if u.Op == "app" && u.Name == "be" && len(u.Args) == 1 && !seen[u.Key()] {
+				// be(n, x): the n-byte big-endian representation of x (0 <= x < 256^n): its value is x
+				seen[u.Key()] = true
+				n := u.Val.Int64()
+				bs := make([]*Term, n)
+				for i := int64(0); i < n; i++ {
+					bs[i] = mkSelect(u, mkInt64(i))
+				}
+				x := u.Args[0]
+				inRange := mkAnd(mkLe(mkInt64(0), x), mkLt(x, mkInt(new(big.Int).Lsh(big1, uint(8*n)))))
+				out = append(out, mkImplies(inRange, &Term{Op: "=", Sort: SBool, Args: []*Term{os2ipRaw(bs), x}}))
+				return
+			}
 			if u.Op != "app" || len(u.Args) != 2 {
 				return
 			}
@@ -2221,4 +2235,57 @@ func panicSite() string {
 		}
 	}
 	return "?"
+}
+
+// mkBe: the n-byte big-endian representation of the integer x, as an array of bytes (uninterpreted; its
+// defining property -- the bytes are the base-256 digits of x -- is supplied to the solvers per use).
+func mkBe(n int64, x *Term) *Term {
+	t := &Term{Op: "app", Sort: SArr, Name: "be", Val: big.NewInt(n), Args: []*Term{x}}
+	t.Lo, t.Hi = big0, big.NewInt(255)
+	return t
+}
+
+// os2ipRaw: the big-endian value polynomial without the be() collapse of os2ipTerms.
+func os2ipRaw(bs []*Term) *Term {
+	r := mkInt64(0)
+	for _, b := range bs {
+		r = mkAdd(mkScale(r, big.NewInt(256)), b)
+	}
+	return r
+}
+
+// beDigits recognises  sum_i 256^(n-1-i) * A[o+i]  over a callee-created array A (n >= 2) and returns A, o, n.
+func beDigits(t *Term) (arr *Term, off, n int64, ok bool) {
+	if t.Op != "poly" || len(t.P.t) < 2 {
+		return nil, 0, 0, false
+	}
+	type dig struct {
+		idx int64
+		c   *big.Int
+	}
+	var ds []dig
+	for _, e := range t.P.t {
+		if len(e.m.f) != 1 || e.m.f[0].exp.Cmp(big1) != 0 {
+			return nil, 0, 0, false
+		}
+		a := e.m.f[0].atom
+		if a.Op != "select" || a.Args[0].Op != "var" || !strings.Contains(a.Args[0].Name, "!") || !a.Args[1].IsConst() {
+			return nil, 0, 0, false
+		}
+		if arr == nil {
+			arr = a.Args[0]
+		} else if arr.Key() != a.Args[0].Key() {
+			return nil, 0, 0, false
+		}
+		ds = append(ds, dig{a.Args[1].Val.Int64(), e.c})
+	}
+	sort.Slice(ds, func(i, j int) bool { return ds[i].idx < ds[j].idx })
+	n = int64(len(ds))
+	off = ds[0].idx
+	for i, d := range ds {
+		if d.idx != off+int64(i) || d.c.Cmp(new(big.Int).Lsh(big1, uint(8*(n-1-int64(i))))) != 0 {
+			return nil, 0, 0, false
+		}
+	}
+	return arr, off, n, true
 }
